@@ -227,9 +227,15 @@ def check(case, rec: Rec) -> None:
             if t.startswith("[["):
                 base = t[2:-2].split("#")[0]
                 exp = [f"EDIT {zdir}/{base}.zo"]
+                ok = code == 0 and outl[:1] == exp
                 if "#" in t:
-                    exp.append("SEARCH LID::" + t[2:-2].split("#")[1])
-                if outl != exp or code != 0:
+                    # (the exact search pattern is a protocol detail; it must search for the anchor)
+                    anchor = t[2:-2].split("#")[1]
+                    ok = ok and len(outl) == 2 and outl[1].startswith("SEARCH ") and anchor in outl[1]
+                    exp.append(f"SEARCH <..{anchor}..>")
+                else:
+                    ok = ok and len(outl) == 1
+                if not ok:
                     raise Violation("page-link-resolution", f"{t}: {outl} exit {code}, expected {exp}", case=one)
             elif t.startswith("[#") or t.startswith("[@"):
                 owners = (by_id if t[1] == "#" else by_rid).get(t[2:-1], [])
